@@ -6,9 +6,11 @@ CONSTANTS
   F = "f"
   AuthorOrder <- MC_AuthorOrder
   RemoteBodies <- MC_RemoteBodies2
+  RemotePrunes <- MC_RemotePrunes2
   Policies = {"auto", "explicit"}
   ResetHeights <- MC_ResetHeights
   MaxPub = 2
+  MaxPrune = 1
   MaxImp = 1
   MaxAck = 3
   MaxForeign = 1
